@@ -125,7 +125,11 @@ class Report:
         n_inc = sum(1 for o in self.obligations if o.status in ("inconclusive", "not_encoded"))
         new_violations = []
         known_hits = []
+        seen_keys = set()
         for v in self.violations:
+            if v.key in seen_keys:
+                continue  # one report per role; the other obligations of the role are listed in the evidence
+            seen_keys.add(v.key)
             if v.key in known_keys:
                 known_hits.append(v)
             else:
